@@ -36,6 +36,26 @@ Theorem C18_no_lost_update : forall role sched content p f,
   holder s = None -> role p = true -> pos (procs s p) = len role p -> f < 3 -> In p (files s f).
 Proof. exact no_lost_update. Qed.
 
+(* ... and nothing else (the serial history, exactly): whenever no invocation is inside, each
+   file is the content found at the start followed by a duplicate-free list whose members are
+   precisely the committing invocations that have finished — no reader leaves a mark, no
+   commit is applied twice, no unfinished one shows, for every N, schedule and think time *)
+Theorem C18_files_are_exactly_the_commits : forall role sched content f,
+  let s := run role sched (init content) in
+  holder s = None -> f < 3 ->
+  exists l, files s f = content ++ l /\ NoDup l /\
+            (forall p, In p l <-> (role p = true /\ pos (procs s p) = len role p)).
+Proof. exact files_are_exactly_the_commits. Qed.
+
+(* every read is a state of the serial history: whatever an invocation has read of a file — at any
+   moment, finished or not, holder or not — is the content found at the start followed by the first
+   k commits for some k (a prefix of the serial history as it stands); it never sees a mixture of
+   two commits or a state no serial execution passes through, and later commits only append *)
+Theorem C18_every_read_is_a_serial_state : forall role sched content q f,
+  let s := run role sched (init content) in
+  f < 3 -> f + 2 <= pos (procs s q) -> exists t, log s = snap (procs s q) f ++ t.
+Proof. exact every_read_is_a_serial_state. Qed.
+
 (* the facts about the code the model rests on, re-read from the source on every run:
    the store lock and the cache lock are exclusive flocks taken before any file is read,
    a contended attempt blocks, and the lock is released by dropping the FileLock; the cache's persisted files are
@@ -56,4 +76,6 @@ Print Assumptions C18_mutex.
 Print Assumptions C18_no_torn_read.
 Print Assumptions C18_quiescent_files_agree.
 Print Assumptions C18_no_lost_update.
+Print Assumptions C18_files_are_exactly_the_commits.
+Print Assumptions C18_every_read_is_a_serial_state.
 Print Assumptions C18_locks_are_exclusive.
